@@ -774,6 +774,8 @@ def c_matrix(m):
 def model_term(c):
     if c['op'] == 'matrix':
         return 'run_transport %s %s' % (lst(c['doc']['profiles'], string), lst(c['matrices'], c_matrix))
+    if c['op'] == 'full' and c['doc'].get('prevalidation') and c.get('matrices') is None:
+        return FULL.prevalidation_term(c)
     if c['op'] != 'doc':
         return None
     return ('let d := %s in (fst (run_validate d), snd (run_validate d), fst (run_read d), snd (run_read d), run_spec d, run_known d)'
@@ -1010,6 +1012,8 @@ def compare(c, impl, model):
         return 'harness panicked outside catch_unwind: %s' % impl['panic']
     if c['op'] == 'matrix':
         return FULL.compare_matrix(c, impl, model)
+    if c['op'] == 'full':
+        return FULL.compare_prevalidation(c, impl, model)
     vk, vcs, rk, rcs, mspec, mknown = model
     mv, mr = (vk, vcs), (rk, rcs)
     d = c['doc']
